@@ -4,3 +4,5 @@ pub assume_specification<T, A: std::alloc::Allocator> [std::collections::VecDequ
 pub assume_specification<T, A: std::alloc::Allocator> [std::collections::VecDeque::<T, A>::get] (d: &std::collections::VecDeque<T, A>, i: usize) -> (r: Option<&T>)
     ensures i < d@.len() ==> r == Some(&d@[i as int]),
             i >= d@.len() ==> r is None;
+pub assume_specification<T, A: std::alloc::Allocator> [<std::collections::VecDeque<T, A> as core::convert::From<Vec<T, A>>>::from] (v: Vec<T, A>) -> (r: std::collections::VecDeque<T, A>)
+    ensures r@ == v@;
